@@ -5,6 +5,8 @@ import builtins
 
 LIT = {            # fragment -> (text, denoted literal)
     'int': ('1', 1), 'int2': ('2', 2), 'float': ('1.5', 1.5), 'qstr': ('"b"', 'b'),
+    'qlit': ('"2.5"', '2.5'),      # a quoted string whose content would itself be a literal: it denotes the string
+
     'tuple': ('(1, 2)', (1, 2)), 'list': ('[1, 2]', [1, 2]), 'dict': ('{1: 2}', {1: 2}),
     'none': ('None', None), 'true': ('True', True), 'neg': ('-1', -1),
     'padded': (' 1', 1), 'trail': ('1 ', 1),
